@@ -289,14 +289,14 @@ func init() {
 		LevelText: "all 66 lookup call sites are sources; every sink reached by a tainted value is an obligation; sanitised hand-offs are counted with a floor.", LevelNote: "signature fields = all fields of T except labels/annotations listed in the engine; publication is a sink because assignment stores through the published pointer (derived: a store through the asserted last-evaluated value exists)", DesignRef: "4 TB; 5 C12"})
 
 	claim("C13", PropertySpec{
-		Engines: []EngineSpec{all("NL")},
-		Clause: "Narrow clause: no dispatch on the length of an identifier's text. Every comparison of len(text) with a constant in base, eval, method_evaluator, parser and cmd (23 today) is an emptiness test, a conjunct next to a decoration test of the same text, or a bounds guard of exactly the strength the indexing it dominates needs.",
+		Engines: []EngineSpec{all("NL"), rules("ORD", "ORD-agree")},
+		Clause: "The binder's two canonical orders are orders of the same text (ORD-agree: call-site keywords are sorted by the stored key, parameter names as raw strings; a comparator on a derived text — the key without its colon — orders `w:` / `w2:` the other way, so whether a keyword is matched depends on what the names are). Narrow clause: no dispatch on the length of an identifier's text. Every comparison of len(text) with a constant in base, eval, method_evaluator, parser and cmd (23 today) is an emptiness test, a conjunct next to a decoration test of the same text, or a bounds guard of exactly the strength the indexing it dominates needs.",
 		NotCovered: "everything else about names: table keys, classification by character class, collisions with configured names",
 	}, propMeta{Technique: "def-use and dominance rule on len comparisons over go/ssa (bounds-guard strength compared with the dominated index sites and with the length of the neighbouring decoration test)", LevelText: "all length comparisons on text are enumerated and decided.", LevelNote: "narrow by design: only length-dependence is decided", DesignRef: "4 NL; 5 C13"})
 
 	claim("C14", PropertySpec{
-		Engines: []EngineSpec{rules("ORD", "ORD-canon")},
-		Clause: "In the argument binder every order-sensitive use of the call-site arguments is on the canonicalised list (the raw list is only measured and canonicalised), and the canonicaliser sorts the keyword partition by key.",
+		Engines: []EngineSpec{rules("ORD", "ORD-canon", "ORD-agree")},
+		Clause: "The canonical order of the call-site keywords and the canonical order of the parameter names are orders of the same text (ORD-agree), so that matching by position after sorting pairs every keyword with its parameter whatever order it was written in. In the argument binder every order-sensitive use of the call-site arguments is on the canonicalised list (the raw list is only measured and canonicalised), and the canonicaliser sorts the keyword partition by key.",
 		NotCovered: "consumers of the unsorted argument list outside the binder (conditional returns, execution-type calculation), evaluation order of argument expressions",
 	}, propMeta{Technique: "def-use rule on the binder's parameter over go/ssa + comparator shape check + dominance of the sort over every return of the canonicaliser", LevelText: "all callers of the canonicaliser are enumerated; each use of the raw parameter is decided.", LevelNote: "canonicaliser resolved by role: func([]*T) []*T that partitions and sorts", DesignRef: "4 ORD-canon; 5 C14"})
 
